@@ -400,6 +400,32 @@ def x1_relation_jobs_not_clustered(F, r):
         raise AnchorError("clustering_reader: no FilterPolicy { job_filter, .. } construction found")
 
 
+DROPPING_ADAPTERS = ("adapters::filter::", "adapters::filter_map::", "adapters::skip::", "adapters::take::", "adapters::skip_while::", "adapters::take_while::",
+                     "adapters::step_by::", "adapters::map_while::", "adapters::rev::")
+
+
+def x2_shift_index_is_position(F, r):
+    """a shift index names a POSITION in `vehicle.shifts` everywhere in the document (tours, relations, break / reload / recharge job ids, reserved times): every
+    enumeration that numbers shifts runs over the bare shift list — no filter / skip / take / rev between `shifts.iter()` and `enumerate()` (decided on the iterator type)"""
+    n = 0
+    for fid, fn in sorted(F.fns.items()):
+        if "::promoted[" in fid or not fid.lstrip("<").startswith("vrp_pragmatic::"):
+            continue
+        for bi, t in mir.calls(fn):
+            if not t["callee"].endswith("Iterator::enumerate") or not t["ga"] or "model::VehicleShift" not in t["ga"][0]:
+                continue
+            n += 1
+            inst = f"{util.short_fn(F.root_of(fid))}: shifts.enumerate()"
+            bad = [d.split("::")[1] for d in DROPPING_ADAPTERS if d in t["ga"][0]]
+            if bad:
+                r.fail(inst, f"shifts are numbered AFTER `{', '.join(bad)}`: the number is no longer the position in `vehicle.shifts`, so breaks / reloads / reserved times are attached to "
+                       "another shift than the one that defines them", F.loc(fid, t["ln"]))
+            else:
+                r.ok(inst, "numbers the bare shift list")
+    if n < 4:
+        raise AnchorError(f"only {n} enumerations over vehicle shifts found (5 counted on the pinned tree)")
+
+
 def q1_no_self_comparison(F, r):
     from .common import lints_rule
     n = lints_rule(F, r, ("vrp_pragmatic::format", "vrp_core::construction::heuristics", "vrp_core::construction::probing", "vrp_core::construction::clustering",
@@ -425,5 +451,6 @@ def run(ctx):
     ctx.run("C02-P6", "functions that move jobs into a place clean the places the jobs can come from (exclusive job places, reasoned table)", p6_moves_clean_sources, floor=18)
     ctx.run("C02-P5", "empty tours are dropped after the last state acceptance in every function that drops them", p5_empty_tours_removed_last, floor=3)
     ctx.run("C02-X1", "vicinity clustering never merges a job bound by a relation: the job filter must-derives from plan.relations on every alternative", x1_relation_jobs_not_clustered, floor=1)
+    ctx.run("C02-X2", "shift indices are positions in vehicle.shifts: shifts are enumerated before any element-dropping adapter", x2_shift_index_is_position, floor=4)
     ctx.run("C02-Q1", "no comparison relates a value to itself in job/vehicle matching code (constant guard)", q1_no_self_comparison, floor=1)
     ctx.run("C02-P3", "final report: unassigned ∪ required reported; every route reported and written", p3_final_report, floor=4)
